@@ -10,9 +10,11 @@ const (
 	ioRead = iota
 	ioWrite
 	ioSetattr
+	ioSetattrBadAttr // SETATTR of an attribute that cannot be set
+	ioSetattrHuge    // SETATTR of a size the file refuses
 )
 
-var ioNames = [...]string{"READ", "WRITE", "SETATTR"}
+var ioNames = [...]string{"READ", "WRITE", "SETATTR", "SETATTR", "SETATTR"}
 
 // inflightIO is a READ or WRITE that is parked at a gate inside the
 // leaf, i.e. after the server validated its state ID.
@@ -37,6 +39,10 @@ func (h *hist) ioOp(kind int, sid nfsv4.Stateid4) nfsv4.NfsArgop4 {
 		return &nfsv4.NfsArgop4_OP_READ{Opread: nfsv4.Read4args{Stateid: sid, Offset: 0, Count: 16}}
 	case ioWrite:
 		return &nfsv4.NfsArgop4_OP_WRITE{Opwrite: nfsv4.Write4args{Stateid: sid, Offset: uint64(h.rng.IntN(8)), Stable: nfsv4.FILE_SYNC4, Data: []byte{byte(h.rng.IntN(256)), 1, 2}}}
+	case ioSetattrBadAttr:
+		return &nfsv4.NfsArgop4_OP_SETATTR{Opsetattr: nfsv4.Setattr4args{Stateid: sid, ObjAttributes: badAttr()}}
+	case ioSetattrHuge:
+		return &nfsv4.NfsArgop4_OP_SETATTR{Opsetattr: nfsv4.Setattr4args{Stateid: sid, ObjAttributes: sizeAttr(1 << 20)}}
 	default:
 		return &nfsv4.NfsArgop4_OP_SETATTR{Opsetattr: nfsv4.Setattr4args{Stateid: sid, ObjAttributes: sizeAttr(uint64(h.rng.IntN(32)))}}
 	}
@@ -64,12 +70,12 @@ func (h *hist) predictIO(c *client, kind int, sid nfsv4.Stateid4, fh fhRef) (st 
 		case 0:
 			return nfsv4.NFS4ERR_NOFILEHANDLE, true, nil
 		case 1:
-			if kind == ioSetattr {
+			if kind >= ioSetattr {
 				return nfsv4.NFS4_OK, true, nil
 			}
 			return nfsv4.NFS4ERR_ISDIR, true, nil
 		}
-		if kind != ioSetattr && fh.leaf.failOpen.Load() > 0 {
+		if kind < ioSetattr && fh.leaf.failOpen.Load() > 0 {
 			return nfsv4.NFS4ERR_IO, true, nil
 		}
 		return nfsv4.NFS4_OK, true, nil
@@ -82,11 +88,21 @@ func (h *hist) predictIO(c *client, kind int, sid nfsv4.Stateid4, fh fhRef) (st 
 func (h *hist) io(c *client, kind int, sid nfsv4.Stateid4, fh fhRef, variant string) {
 	st, special, _ := h.predictIO(c, kind, sid, fh)
 	want := []nfsv4.Nfsstat4{st}
-	if st == nfsv4.NFS4_OK && kind != ioSetattr && fh.kind == 2 && fh.leaf.failIO.Load() > 0 {
+	if st == nfsv4.NFS4_OK && kind < ioSetattr && fh.kind == 2 && fh.leaf.failIO.Load() > 0 {
 		want[0] = nfsv4.NFS4ERR_IO
 		h.sit("io-error-inside-leaf")
 	}
-	if h.concurrent && fh.kind == 2 && (kind != ioSetattr) {
+	// Failures after the state ID was accepted (and, for a regular
+	// state ID, the share reservation was borrowed).
+	if st == nfsv4.NFS4_OK && kind == ioSetattrBadAttr {
+		want[0] = nfsv4.NFS4ERR_ATTRNOTSUPP
+		h.sit("setattr-fails-after-state-id-was-accepted")
+	}
+	if st == nfsv4.NFS4_OK && kind == ioSetattrHuge && fh.kind == 2 {
+		want[0] = nfsv4.NFS4ERR_INVAL
+		h.sit("setattr-fails-after-state-id-was-accepted")
+	}
+	if h.concurrent && fh.kind == 2 && kind < ioSetattr {
 		// Injected faults may be consumed by another history.
 		want = append(want, nfsv4.NFS4ERR_IO, nfsv4.NFS4_OK)
 	}
@@ -131,7 +147,7 @@ func (c *client) freeSlot() int {
 func (h *hist) startGatedIO(c *client, kind int, sid nfsv4.Stateid4, leaf *fakeLeaf, variant string) *inflightIO {
 	fh := fhLeaf(leaf)
 	st, special, os := h.predictIO(c, kind, sid, fh)
-	if st != nfsv4.NFS4_OK || kind == ioSetattr {
+	if st != nfsv4.NFS4_OK || kind >= ioSetattr {
 		return nil
 	}
 	slot := 0
@@ -232,4 +248,78 @@ func (h *hist) releaseIO(io *inflightIO) {
 	if io.os != nil && io.os.closed {
 		h.sit("io-finished-after-its-state-was-closed")
 	}
+}
+
+// parkedOpen is an OPEN that is held inside VirtualOpenChild, i.e.
+// after the server started the open-owner transaction (4.0) or the
+// SEQUENCE (4.1) and took its hold on the client record, and before
+// the file is opened.
+type parkedOpen struct {
+	c    *client
+	g    *gate
+	done chan *openState
+	sess *session
+	slot int
+}
+
+// startGatedOpen sends a CLAIM_NULL OPEN and parks it. While it is
+// parked the model still shows the state before the OPEN; the caller
+// must not use that open-owner or that name meanwhile.
+func (h *hist) startGatedOpen(c *client, p openParams) *parkedOpen {
+	po := &parkedOpen{c: c, done: make(chan *openState, 1)}
+	if c.ver == 1 {
+		p.slot = c.freeSlot()
+		if p.slot < 0 {
+			return nil
+		}
+		po.sess, po.slot = c.liveSession(), p.slot
+		po.sess.busy[p.slot] = true
+	}
+	po.g = h.w.root.armOpenGate()
+	go func() { po.done <- h.open(c, p) }()
+	arrived := make(chan struct{})
+	early := false
+	go func() {
+		select {
+		case <-po.g.arrived:
+		case os := <-po.done:
+			early = true
+			po.done <- os
+		}
+		close(arrived)
+	}()
+	if !h.w.waitOrInconclusive(arrived, "gated OPEN reaching the directory") {
+		return nil
+	}
+	if early {
+		h.w.root.disarmOpenGate(po.g)
+		if po.sess != nil {
+			po.sess.busy[po.slot] = false
+		}
+		return nil
+	}
+	c.inflight++
+	h.openParked = true
+	h.note("%s OPEN parked inside VirtualOpenChild", c)
+	h.sit("open-parked-in-flight")
+	return po
+}
+
+func (h *hist) releaseGatedOpen(po *parkedOpen) *openState {
+	close(po.g.release)
+	finished := make(chan struct{})
+	var os *openState
+	go func() {
+		os = <-po.done
+		close(finished)
+	}()
+	if !h.w.waitOrInconclusive(finished, "released OPEN returning") {
+		return nil
+	}
+	po.c.inflight--
+	h.openParked = false
+	if po.sess != nil {
+		po.sess.busy[po.slot] = false
+	}
+	return os
 }
